@@ -483,6 +483,13 @@ def map_retry_batches(which, failing: int, nfail: int, c0: int, c1: int, c2: int
                 return "outcome %r" % (got,)
         elif got[0] != "SUCCEEDED" or got[1].get("r") != "rec" or (got[1].get("err") or {}).get("Error") != "Boom":
             return "C07 exhausted Map retries should reach the Catcher: %r" % (got,)
+        # every run of the Map enters the Iterator's state afresh for each item it reaches (MaxConcurrency 1: item 1
+        # is reached only when item 0 succeeded): each such entry logs TaskStateEntered
+        entries = sum((failing + 1) if r <= nfail else 2 for r in range(1, want_runs + 1))
+        h = s2.history_of(inst)
+        ent = [e for e in h if e["type"] == "TaskStateEntered" and e["stateEnteredEventDetails"]["name"] == "I"]
+        if len(ent) != entries:
+            return "C09 TaskStateEntered(I) logged %d times for %d entries of the Iterator state over %d runs of the Map" % (len(ent), entries, want_runs)
         return ""
     return _run(asl, {"items": items}, [c0, c1, c2, c3, c4, c5, c6, c7], {"fi": w}, which, "STANDARD", None, extra_check=chk, max_steps=300)
 
